@@ -222,6 +222,11 @@ def part_accept(job):
             msgs = [d for h, d in link.tx[tx0:] if (h >> 4) == 5 and (h & 3) == 1]
             p.transitions += len(msgs)
             _check_create(p, rp, lname, conf, msgs, exp_vars, dev)
+            rw = link.rewritten(tx0)
+            if rw:
+                p.violation('create:queued_message_rewritten', 'list %s: message %d of the creation (%s) reads %r once the later '
+                            'messages have been handed to the link - a driver that queues packet objects transmits the wrong '
+                            'bytes' % (lname, rw[0][0], rw[0][1][1].hex(), rw[0][2]), rp)
             seqcf.pump(cf)
             after = [d for h, d in link.tx[tx0:] if (h >> 4) == 5 and (h & 3) == 1][len(msgs):]
             if not conf.added or not conf.started or cbs != [('added', True), ('started', True)]:
@@ -302,7 +307,8 @@ _EXTREMES = {
 
 def _check_decode(p, rp, lname, conf, cf, link, exp_vars, dev):
     got = []
-    conf.data_received_cb.add_callback(lambda ts, data, c: got.append((ts, dict(data), c)))
+    held = []       # the dictionaries as delivered (a consumer such as SyncLogger queues them) with their content at delivery
+    conf.data_received_cb.add_callback(lambda ts, data, c: (got.append((ts, dict(data), c)), held.append((ts, data, dict(data)))))
     rounds = max(len(_EXTREMES[v[2]]) for v in exp_vars)
     names = [v[4] for v in exp_vars]
     if len(set(names)) != len(names):
@@ -343,6 +349,12 @@ def _check_decode(p, rp, lname, conf, cf, link, exp_vars, dev):
                 p.violation('decode:mismatch:%s' % ('timestamp' if got and got[0][0] != ts else 'values'),
                             'list %s: data packet ts=%#x values %r decoded as %r' % (lname, ts, expd, [(g[0], g[1]) for g in got]), rp)
                 return
+    for k, (ts, obj, snap) in enumerate(held):
+        same = set(obj) == set(snap) and all((obj[n] == snap[n]) or (obj[n] != obj[n] and snap[n] != snap[n]) for n in snap)
+        if not same:
+            p.violation('decode:earlier_sample_changed', 'list %s: the values delivered for data packet %d (ts=%#x) read %r after '
+                        'later packets were decoded, they were %r at delivery' % (lname, k, ts, obj, snap), rp)
+            return
 
 
 # ---------------------------------------------------------------------------------------------
